@@ -5,6 +5,25 @@ import json, os, re
 ROOT = '/verif'
 m = json.load(open(f'{ROOT}/mutants/matrix.json'))
 NOTES = {
+ 'C01e': 'first missed: explainers were never copied; every exact stream now takes a deepcopy checkpoint before the last observation, lets the original move on and then continues on the copy (the copy must be independent)',
+ 'C02e': 'first missed: (a) no stream went past the capacity of a bounded storage with in-place replacement, (b) the closed form was computed from the rows the imputer USED; long streams on Interval/Sequence/Geometric storages and a provenance oracle (every imputed value comes from a row that is in the storage at call start) were added',
+ 'C03e': 'first missed: observations never carried keys outside feature_names; an extra-key option was added to the shared stream driver (the model reads the extra key, it must never be imputed)',
+ 'C04e': 'first missed: all test models read features by name; a positional model (reads x.values() in order, as SklearnWrapper/TorchWrapper do without feature names) was added to C04 and a key-order oracle to C06',
+ 'C05e': 'first missed: one explainer per execution; two default-constructed explainers in one process were added (results of the second must not depend on the first); a choice-point divergence between identically built executions is reported as hidden shared state',
+ 'C06e': 'first missed: the defaults of a DefaultImputer were never edited between two impute calls; added as an operation of the history alphabet',
+ 'C08e': 'first missed by C08 (caught by C18 after a constructor check was added there): scripted draws ignored random.seed. The engine now models a library-side re-seed (later draws of that generator carry no probability and the law must hold for every fixed answer sequence) and C08/C09 construct every other library class while the reservoir is in use',
+ 'C10e': 'first missed: tracker attributes were never re-assigned after construction; a scenario that re-assigns the public alpha attribute before the first value was added (the closed form for the NEW alpha must hold)',
+ 'C12e': 'first missed: needed a key resting exactly at 0 that is then omitted; zero-valued and omitted letters were added for every base tracker',
+ 'C13e': 'first missed: labels were ints/bools/strings that float() leaves alone or rejects; numeric-looking strings and ints > 2**53 were added to the label alphabet',
+ 'C15e': 'first missed: same two-instance scenario as C05e for the incremental explainers (foreign rows must never appear in the imputations of the second explainer)',
+ 'C16e': 'first missed: dicts handed out by the explainer were never edited by the caller; every handed-out dict is now mutated and the public views re-queried (they must be unaffected)',
+ 'C17e': 'first missed: the injected exception types did not include StopIteration (absorbed by map/list/zip machinery); an InjectedStop fault kind was added and a swallowed fault is itself a violation',
+ 'C18e': 'first missed: every observation object was kept alive by the harness; each cell with delivery_pair is now run twice – short-lived dict displays vs long-lived objects – and the digests must agree (results must not depend on object identity / lifetime); update_storage is directly followed by explain_one on a 3-slot reservoir',
+ 'C19e': 'first a harness error: the scripted randrange(0) raised from harness code; emulated primitive errors are now attributed to the calling library code',
+ 'C20e': 'first missed: the per-call n_inner_samples override was not part of the long explainer runs; added, with an independent reference',
+ 'uniform_reseeds_in_update': 'written after C08e to probe the re-seed model: results stay reproducible (C18 is rightly silent), the draws are no longer random',
+ 'geometric_reseeds_in_update': 'see uniform_reseeds_in_update',
+ 'marginal_imputer_reseeds': 'see uniform_reseeds_in_update (C04: the expectation over the remaining random draws is wrong for every fixed answer sequence)',
  'C03a': 'first missed: with deviation bound 1 it needs a non-identity feature order AND a non-first row; fixed by making the label set depend on the last feature and by the second base execution (all-last default answers)',
  'C07b': 'first missed: no unlabelled (y=None) arrivals were driven; a third row mode was added to C07',
  'C04a': 'also caught by C06 after histories were started from full storages',
